@@ -296,8 +296,10 @@ impl std::str::FromStr for Relation {
         let tokens = lex(s);
         let mut tokens = tokens.into_iter().peekable();
 
+        // A relationship field may be folded: a line break (followed by blanks) can occur
+        // wherever blanks can.
         fn eat_whitespace(tokens: &mut Peekable<impl Iterator<Item = (SyntaxKind, String)>>) {
-            while let Some((WHITESPACE, _)) = tokens.peek() {
+            while let Some((WHITESPACE | NEWLINE, _)) = tokens.peek() {
                 tokens.next();
             }
         }
@@ -311,6 +313,7 @@ impl std::str::FromStr for Relation {
 
         let archqual = if let Some((COLON, _)) = tokens.peek() {
             tokens.next();
+            eat_whitespace(&mut tokens);
             match tokens.next() {
                 Some((IDENT, s)) => Some(s),
                 _ => return Err("Expected architecture qualifier".to_string()),
@@ -339,7 +342,7 @@ impl std::str::FromStr for Relation {
             let mut version_string = String::new();
             while let Some((kind, s)) = tokens.peek() {
                 match kind {
-                    R_PARENS | WHITESPACE => break,
+                    R_PARENS | WHITESPACE | NEWLINE => break,
                     IDENT | COLON => version_string.push_str(s),
                     n => return Err(format!("Unexpected token: {:?}", n)),
                 }
@@ -370,7 +373,7 @@ impl std::str::FromStr for Relation {
                         _ => return Err("Expected architecture name".to_string()),
                     },
                     Some((IDENT, s)) => archs.push(s),
-                    Some((WHITESPACE, _)) => {}
+                    Some((WHITESPACE | NEWLINE, _)) => {}
                     Some((R_BRACKET, _)) => break,
                     _ => return Err("Expected architecture name".to_string()),
                 }
@@ -397,7 +400,7 @@ impl std::str::FromStr for Relation {
                         profile.push(BuildProfile::Disabled(profile_name));
                     }
                     Some((IDENT, s)) => profile.push(BuildProfile::Enabled(s)),
-                    Some((WHITESPACE, _)) => {}
+                    Some((WHITESPACE | NEWLINE, _)) => {}
                     Some((R_ANGLE, _)) => break,
                     _ => return Err("Expected profile name".to_string()),
                 }
